@@ -3,6 +3,7 @@
 package cose
 
 func init() {
+	vRegister("H_C11_decoded_pair", H_C11_decoded_pair)
 	vRegister("H_C11_verify", H_C11_verify)
 	vRegister("H_C11_sign", H_C11_sign)
 	vRegister("H_C11_codec", H_C11_codec)
@@ -224,5 +225,38 @@ func H_C11_codec() {
 			vAssert("codec: decoded signature count", len(d.Signatures) == n)
 		}
 	}
+	vReach("end")
+}
+
+// a received COSE_Sign with two signers whose protected headers mean the same but are spelt differently
+// (or not): each verifier is consulted over its own signer's Sig_structure, built from that signer's wire bytes
+func H_C11_decoded_pair() {
+	mk := func(name string) (*vNodeT, []byte, []byte) {
+		pairs := []*vNodeT{nnInt(0, 1, vWidth(name+".kw", 1)), nnInt(1, 6, vWidth(name+".vw", 6))}
+		kid := []*vNodeT{nnInt(0, 4, vWidth(name+".kidkw", 4)), nnBstr([]byte("1"), vWidth(name+".kidw", 1))}
+		if vChoose(name+".order", 2) == 0 { // entry order is the sender's choice
+			pairs = append(pairs, kid...)
+		} else {
+			pairs = append(kid, pairs...)
+		}
+		content := vSer(nnMap(pairs, vWidth(name+".mw", 2)))
+		sig := vBlobN(name+".sig", 1, 64)
+		return nnArray([]*vNodeT{nnBstr(content, vWidth(name+".pw", uint64(len(content)))), nnMap(nil, 0), nnBstr(sig, -1)}, 0), content, sig
+	}
+	s0, c0, g0 := mk("s0")
+	s1, c1, g1 := mk("s1")
+	payload := vBlob("payload")
+	var m SignMessage
+	vAssume(m.UnmarshalCBOR(vSer(nnTag(98, nnArray([]*vNodeT{nnBstr([]byte{}, 0), nnMap(nil, 0), nnBstr(payload, -1), nnArray([]*vNodeT{s0, s1}, 0)}, 0), 1))) == nil)
+	ext := mkExternal("ext")
+	v0, v1 := &spyVerifier{alg: AlgorithmES256}, &spyVerifier{alg: AlgorithmES256}
+	err := m.Verify(ext, v0, v1)
+	vAssert("pair: two accepting verifiers => nil", err == nil)
+	if err != nil {
+		return
+	}
+	vAssert("pair: each verifier consulted once with its own signature", v0.calls == 1 && v1.calls == 1 && vRopeEq(v0.sig, g0) && vRopeEq(v1.sig, g1))
+	vAssert("pair: verifier 0 sees its own signer's structure", vRopeEq(v0.content, refSigStructure("Signature", [][]byte{{}, c0}, ext, payload, nil)))
+	vAssert("pair: verifier 1 sees its own signer's structure", vRopeEq(v1.content, refSigStructure("Signature", [][]byte{{}, c1}, ext, payload, nil)))
 	vReach("end")
 }
